@@ -55,7 +55,91 @@ impl Object for Tainted {
     }
 }
 
+/// host objects whose text reaches the formatter in every way a `Display` / `Debug` implementation
+/// can hand it over: whole, piecewise, character by character, through format arguments, padded,
+/// debug-quoted, through the derived Debug of a struct with a string field
+const OBJ_TEXT: &str = "<o\"'&>";
+
+#[derive(Debug)]
+struct Emit(u8);
+impl Object for Emit {
+    fn render(self: &Arc<Self>, f: &mut std::fmt::Formatter<'_>) -> std::fmt::Result {
+        use std::fmt::Write;
+        match self.0 {
+            1 => OBJ_TEXT.chars().try_for_each(|c| f.write_char(c)),
+            2 => OBJ_TEXT.chars().try_for_each(|c| f.write_str(c.encode_utf8(&mut [0; 4]))),
+            3 => write!(f, "{}", OBJ_TEXT),
+            4 => write!(f, "{:?}", OBJ_TEXT),
+            5 => f.pad(OBJ_TEXT),
+            6 => write!(f, "{:>12}|{:<9}|", OBJ_TEXT, '"'),
+            7 => f.debug_struct("S").field("k", &OBJ_TEXT).field("c", &'"').finish(),
+            8 => write!(f, "{}{}{}{}", '"', '<', '\'', '&'),
+            9 => f.debug_list().entries(OBJ_TEXT.chars()).finish(),
+            _ => f.write_str(OBJ_TEXT),
+        }
+    }
+}
+
+/// plain object that keeps the default rendering (its derived Debug)
+#[derive(Debug)]
+#[allow(dead_code)]
+struct DebugUser {
+    name: String,
+    initial: char,
+    path: std::path::PathBuf,
+}
+impl Object for DebugUser {}
+
+/// an iterable without a length that keeps the default rendering
+#[derive(Debug)]
+struct LazyTexts;
+impl Object for LazyTexts {
+    fn repr(self: &Arc<Self>) -> minijinja::value::ObjectRepr {
+        minijinja::value::ObjectRepr::Iterable
+    }
+    fn enumerate(self: &Arc<Self>) -> minijinja::value::Enumerator {
+        minijinja::value::Enumerator::Iter(Box::new(vec![Value::from(OBJ_TEXT), Value::from(1)].into_iter().filter(|_| true)))
+    }
+}
+
+/// a sequence object with its own rendering, written character by character
+#[derive(Debug)]
+struct SeqCustom;
+impl Object for SeqCustom {
+    fn repr(self: &Arc<Self>) -> minijinja::value::ObjectRepr {
+        minijinja::value::ObjectRepr::Seq
+    }
+    fn get_value(self: &Arc<Self>, key: &Value) -> Option<Value> {
+        (key.as_usize() == Some(0)).then(|| Value::from(OBJ_TEXT))
+    }
+    fn enumerate(self: &Arc<Self>) -> minijinja::value::Enumerator {
+        minijinja::value::Enumerator::Seq(1)
+    }
+    fn render(self: &Arc<Self>, f: &mut std::fmt::Formatter<'_>) -> std::fmt::Result {
+        use std::fmt::Write;
+        f.write_char('<')?;
+        f.write_char('"')?;
+        f.write_str("seq")?;
+        f.write_char('\'')?;
+        f.write_char('>')
+    }
+}
+
 fn ctx_values() -> Vec<(&'static str, Value)> {
+    let mut zoo: Vec<(&'static str, Value)> = vec![
+        ("ob1", Value::from_object(Emit(1))), ("ob2", Value::from_object(Emit(2))), ("ob3", Value::from_object(Emit(3))), ("ob4", Value::from_object(Emit(4))), ("ob5", Value::from_object(Emit(5))),
+        ("ob6", Value::from_object(Emit(6))), ("ob7", Value::from_object(Emit(7))), ("ob8", Value::from_object(Emit(8))), ("ob9", Value::from_object(Emit(9))),
+        ("obdbg", Value::from_object(DebugUser { name: OBJ_TEXT.to_string(), initial: '"', path: std::path::PathBuf::from("/a<b>\"c'") })),
+        ("oblazy", Value::from_object(LazyTexts)),
+        ("obseq", Value::from_object(SeqCustom)),
+        ("byt", Value::from_bytes(b"<b\"'&>\xff".to_vec())),
+    ];
+    let mut v = ctx_values_base();
+    v.append(&mut zoo);
+    v
+}
+
+fn ctx_values_base() -> Vec<(&'static str, Value)> {
     vec![
         ("u", Value::from(T)),
         ("us", Value::from(vec![T, "ok"])),
@@ -126,6 +210,21 @@ const SOURCES: &[(&str, &str)] = &[
     ("object", "ob"),
     ("int", "n"),
     ("list_display", "[u, 1]"),
+    ("object_write_char", "ob1"),
+    ("object_write_str_pieces", "ob2"),
+    ("object_format_args", "ob3"),
+    ("object_debug_quoted", "ob4"),
+    ("object_pad", "ob5"),
+    ("object_padded_args", "ob6"),
+    ("object_debug_struct", "ob7"),
+    ("object_char_args", "ob8"),
+    ("object_debug_list", "ob9"),
+    ("object_default_debug", "obdbg"),
+    ("object_lazy_iterable", "oblazy"),
+    ("object_seq_custom_render", "obseq"),
+    ("bytes_invalid_utf8", "byt"),
+    ("list_of_objects", "[ob1, obdbg, ob4]"),
+    ("map_of_objects", "{'k': ob1, 'd': obdbg}"),
 ];
 
 const LAYOUTS: &[&str] = &["flat_html", "flat_xml", "extends_child", "included", "loop_body", "macro_body"];
@@ -311,13 +410,13 @@ const PRELUDE: &str = "{% set cap %}{{ u }}{% endset %}{% macro mk(a) %}[{{ a }}
 
 /// (expression, is it a safe string)
 fn base_atoms() -> Vec<&'static str> {
-    vec!["u", "\"<l'&>\"", "cap", "mk(u)", "sep", "fmt", "fmtk", "us", "mp", "nest", "ob", "n", "nope", "none"]
+    vec!["u", "\"<l'&>\"", "cap", "mk(u)", "sep", "fmt", "fmtk", "us", "mp", "nest", "ob", "ob1", "obdbg", "n", "nope", "none"]
 }
 
 fn value_exprs(tier: Tier) -> Vec<String> {
     let a = base_atoms();
     let mut v: Vec<String> = a.iter().map(|s| s.to_string()).collect();
-    let strs = ["u", "cap", "mk(u)", "sep", "us", "nest", "ob", "mp"];
+    let strs = ["u", "cap", "mk(u)", "sep", "us", "nest", "ob", "ob1", "ob4", "obdbg", "oblazy", "byt", "mp"];
     for x in strs {
         for y in strs {
             v.push(format!("[{}, {}]", x, y));
@@ -327,7 +426,7 @@ fn value_exprs(tier: Tier) -> Vec<String> {
             }
         }
         v.push(format!("{{'k': {}}}", x));
-        v.push(format!("{{{}: 1}}", if matches!(x, "us" | "nest" | "mp" | "ob") { "'<q>'" } else { x }));
+        v.push(format!("{{{}: 1}}", if matches!(x, "us" | "nest" | "mp" | "ob" | "ob1" | "ob4" | "obdbg" | "oblazy" | "byt") { "'<q>'" } else { x }));
         v.push(format!("({} * n)", x));
         v.push(format!("{}[0]", x));
         v.push(format!("{}[:3]", x));
